@@ -96,6 +96,21 @@ class StdSem(Semantics):
             return None
         return path.tags.get((body.id, pl['l']))
 
+    def variant_index(self, adt, var):
+        key = ('vi', adt)
+        if key not in self._exec:
+            tab = None
+            cr = adt.split('::')[0]
+            for ct in ('Rlib', 'ProcMacro', 'Executable'):
+                if (cr, ct) in self.fb.available():
+                    a = self.fb.adt(cr, adt, ct)
+                    if a is not None and a.get('variants') and len(a['variants']) > 1:
+                        tab = {v['n'] if 'n' in v else v.get('name'): i for i, v in enumerate(a['variants'])}
+                    break
+            self._exec[key] = tab
+        tab = self._exec[key]
+        return tab.get(var) if tab else None
+
     def op_bool(self, interp, path, body, op):
         """known bool value of an operand (constant, or a whole bool local decided on this path)"""
         if op is None:
@@ -161,6 +176,10 @@ class StdSem(Semantics):
         r = self.domain_switch(interp, path, body, bb, term, enum)
         if r is not None:
             return r
+        src0 = term.get('src')
+        tag0 = path.tags.get((body.id, src0['l'])) if src0 and all(e == '*' for e in src0.get('p', [])) else None
+        if tag0 and tag0.startswith('ev:' + enum + '::'):
+            return [tag0[len('ev:' + enum + '::'):]]
         if enum in (OPT, RES, CF):
             src = term.get('src')
             tag = path.tags.get((body.id, src['l'])) if src and not src.get('p') else None
@@ -181,6 +200,10 @@ class StdSem(Semantics):
             return
         if rv['k'] == 'agg' and rv.get('ak') == 'adt':
             adt = strip_generics(rv['adt'])
+            if not rv.get('ops') and adt not in (OPT, RES, CF) and rv.get('var') and self.variant_index(adt, rv['var']) is not None:
+                # a field-less variant of an enum: the value is the variant (`Level::Signed`); ordered comparisons and matches on it are decided
+                self._pending = (k, 'ev:%s::%s' % (adt, rv['var']))
+                return
             if adt in (OPT, RES) and len(rv.get('ops', [])) == 1:
                 v = self.op_bool(interp, path, body, rv['ops'][0])
                 if v is not None:
@@ -210,6 +233,15 @@ class StdSem(Semantics):
         m = short.split('::')[-1]
         t0 = self.arg_tag(path, body, term, 0)
         p0 = self.arg_pay(path, body, term, 0)
+        if short.startswith(('core::cmp::PartialOrd::', 'core::cmp::PartialEq::')) and m in ('lt', 'le', 'gt', 'ge', 'eq', 'ne') and t0 and t0.startswith('ev:'):
+            t1 = self.arg_tag(path, body, term, 1)
+            if t1 and t1.startswith('ev:') and t0.rsplit('::', 1)[0] == t1.rsplit('::', 1)[0]:
+                adt = t0[3:].rsplit('::', 1)[0]
+                i0, i1 = self.variant_index(adt, t0.rsplit('::', 1)[1]), self.variant_index(adt, t1.rsplit('::', 1)[1])
+                clear_dest()
+                if dk is not None and i0 is not None and i1 is not None:
+                    path.memo[dk] = {'lt': i0 < i1, 'le': i0 <= i1, 'gt': i0 > i1, 'ge': i0 >= i1, 'eq': i0 == i1, 'ne': i0 != i1}[m]
+                return [('next', path)]
         is_opt = short.startswith('core::option::Option::')
         is_res = short.startswith('core::result::Result::')
         if short == 'core::ops::try_trait::Try::branch':
